@@ -309,6 +309,35 @@ def run_case(case, res):
                     if isinstance(r, tuple) or fp.getvalue() != e + "\n":
                         bad.append(f"print({kwp}) wrote {fp.getvalue()!r}, format gives {e!r}")
                     res.count("print_calls")
+            # the style table itself: in every style the connectors for a *last* sibling (leaf / with children) share
+            # their corner glyph, the ones for a non-last sibling share theirs, and (unless the style is made of
+            # blanks only) the two glyphs differ - otherwise a prefix would not tell the last-sibling status
+            if start == -1 and variant == "default":
+                for sname2, st in CONNECTORS.items():
+                    if len(st) == 6:
+                        s0, s1, s2, s3, s4, s5 = st
+                        lead = lambda x: x.lstrip()[:1]
+                        if lead(s2) != lead(s4) or lead(s3) != lead(s5):
+                            bad.append(f"style table entry {sname2!r}: with-children connectors {s4!r}/{s5!r} do not share the corner glyphs of {s2!r}/{s3!r}")
+                        if len({len(x) for x in (s2, s3, s4, s5)}) != 1 or len(s0) != len(s1):
+                            bad.append(f"style table entry {sname2!r}: connector widths differ")
+                    if len(st) in (4, 6) and st[2].strip() and st[2] == st[3]:
+                        bad.append(f"style table entry {sname2!r}: last and non-last connectors are identical")
+                res.count("style_table_checks")
+            # an emptied tree (filled, then all nodes removed) renders like a new empty tree
+            if start == -1 and variant == "notitle" and rendered:
+                te = type(t)("E")
+                xs = [te.add("x", **({"kind": "k"} if typed else {})) for _ in range(1)]
+                xs[0].add("y", **({"kind": "k"} if typed else {}))
+                if case.get("f", "").count("(") % 2:
+                    te.clear()
+                else:
+                    xs[0].remove()
+                for kwp, expd in (({"title": False}, ""), ({"style": "list"}, ""), ({"title": "T"}, "T"), ({"title": False, "style": "ascii32"}, "")):
+                    g = attempt(lambda: te.format(**kwp))
+                    if g != expd:
+                        bad.append(f"emptied tree: format({kwp}) gives {g!r}, expected {expd!r}")
+                res.count("emptied_tree_formats")
             # invalid style
             g = attempt(lambda: t.format(style="nosuchstyle"))
             if not (isinstance(g, tuple) and g[1] == "ValueError"):
